@@ -700,6 +700,15 @@ class Interp:
             return PhiV(alts)
         return v
 
+    def _table(self, v):
+        """the literal array behind a value (a literal, or a const / static item initialised with one), else None"""
+        v0 = core(v)
+        if isinstance(v0, Def) and ("Const" in v0.dk or "Static" in v0.dk):
+            cv = self.const_value(v0.path)
+            if cv is not None:
+                v0 = core(cv)
+        return v0 if isinstance(v0, ArrayV) else None
+
     def const_value(self, path):
         """Evaluate a const/static item's initialiser."""
         if path in self._const_cache:
@@ -1281,7 +1290,7 @@ class Interp:
         v = self.ev(n["e"], fr)
         self.tries.append((v, n, self.cur_fn(), self.cur_cond()))
         v0 = core(v)
-        alts = v0.alts if isinstance(v0, PhiV) else [(True, v0)]
+        alts = flatten_phi(v0) if isinstance(v0, PhiV) else [(True, v0)]
         errs = [(c, x) for c, x in alts if isinstance(core(x), StructV) and core(x).variant == "Err"]
         if errs and (isinstance(v0, PhiV) or len(alts) == 1):
             # `?` on a value known to be Err(..) on some paths: those paths return that error
@@ -1773,6 +1782,29 @@ class Interp:
             ok_ = StructV("std::result::Result", "Ok", {"0": UNIT})
             err_ = StructV("std::result::Result", "Err", {"0": Sel(r_, "#Err.0")})
             return PhiV([(a_, ok_), (Not(a_), err_)])
+        # `o.map(f)` / `unwrap()` / `expect(..)` on a receiver whose alternatives are known constructors: f is applied to
+        # each success payload; unwrap keeps the success alternatives (the others leave by panicking)
+        if last in ("map", "unwrap", "expect") and args and callee in ("std::option::Option::map", "std::result::Result::map", "std::option::Option::unwrap", "std::option::Option::expect", "std::result::Result::unwrap", "std::result::Result::expect"):
+            flat_ = flatten_phi(args[0])
+            if flat_ and all(isinstance(core(x), StructV) and core(x).variant in ("Ok", "Err", "Some", "None") for _, x in flat_):
+                if last == "map" and len(args) == 2 and isinstance(core(args[1]), ClosureV):
+                    alts_ = []
+                    for c_, x in flat_:
+                        x0 = core(x)
+                        if x0.variant in ("Ok", "Some"):
+                            self.ctx.append(("cond", c_))
+                            try:
+                                y_ = self.call_closure(core(args[1]), [x0.fields.get("0", UNIT)])
+                            finally:
+                                self.ctx.pop()
+                            alts_.append((c_, StructV(x0.adt, x0.variant, {"0": y_})))
+                        else:
+                            alts_.append((c_, x))
+                    return alts_[0][1] if len(alts_) == 1 else PhiV(alts_)
+                if last in ("unwrap", "expect"):
+                    alts_ = [(c_, core(x).fields.get("0", UNIT)) for c_, x in flat_ if core(x).variant in ("Ok", "Some")]
+                    if alts_:
+                        return alts_[0][1] if len(alts_) == 1 else PhiV(alts_)
         # `r.or(other)` on a receiver whose alternatives are known constructors: the success alternatives stay, every
         # failure alternative becomes `other`
         if last == "or" and len(args) == 2 and callee in ("std::result::Result::or", "std::option::Option::or"):
@@ -1795,6 +1827,28 @@ class Interp:
             return PhiV([(f_, some_), (Not(f_), none_)])
         # `filter_map` / `map` / `filter` over a literal table: unroll it into the list it builds; each element that is
         # kept is logged exactly like a `push` onto the resulting collection (under the condition that keeps it)
+        if last in ("filter_map", "map", "filter", "find_map", "find") and len(args) == 2 and isinstance(core(args[1]), ClosureV) and not isinstance(core(args[0]), ArrayV) and self._table(args[0]) is not None:
+            args = [self._table(args[0])] + list(args[1:])      # a const table is the literal it is initialised with
+            a0 = args[0]
+        # `find` over a literal table: the first entry for which the predicate holds
+        if last == "find" and len(args) == 2 and isinstance(core(args[1]), ClosureV) and isinstance(core(args[0]), ArrayV) and 0 < len(core(args[0]).items) <= 64:
+            cl = core(args[1])
+            alts, earlier = [], []
+            for it in core(args[0]).items:
+                pre = And(*[Not(e) for e in earlier])
+                self.ctx.append(("cond", pre))
+                try:
+                    ok_i = self.to_formula(self.call_closure(cl, [it]))
+                finally:
+                    self.ctx.pop()
+                ci = And(pre, ok_i)
+                if ci is not False:
+                    alts.append((ci, StructV("std::option::Option", "Some", {"0": it})))
+                earlier.append(ok_i)
+            rest_ = And(*[Not(e) for e in earlier])
+            if rest_ is not False:
+                alts.append((rest_, StructV("std::option::Option", "None", {})))
+            return alts[0][1] if len(alts) == 1 and alts[0][0] is True else PhiV(alts)
         if last in ("filter_map", "map", "filter") and len(args) == 2 and isinstance(core(args[1]), ClosureV) and isinstance(core(args[0]), ArrayV) and 0 < len(core(args[0]).items) <= 64:
             cl = core(args[1])
             res = MutV(CallV("std::vec::Vec::new", [], n))
